@@ -5,7 +5,7 @@ from checks.c05 import Cmd, Num, num, gen_cmd, gen_seq, gen_seq_safe, safe_dur, 
 
 ID = "C06"
 LEAN_MODULE = "Ctrmml.Properties.C06"
-THEOREMS = ["C06_per_track_state", "C06_leading_blanks_skip", "C06_bar_skip", "C06_comment_invariant", "C06_comment_line_invariant", "C06_track_id_map", "C06_track_list_ids", "C06_star_decimal", "C06_multitrack_unfold", "C06_conditional_select_partial", "C06_separator_suffices", "C06_layout_run_partial", "C06_layout_invariant_partial", "C06_multitrack_eq_single_partial", "C06_multitrack_blocks_run_partial", "C06_multitrack_eq_single_blocks_partial", "C06_alternatives_clean", "C06_nested_separator_counterexample", "C06_short_block_counterexample", "C06_layout_run2_partial", "C06_layout_invariant2_partial", "C06_multitrack_eq_single2_partial", "C06_track_count_bound", "C06_header_ids_16bit", "C06_multitrack_blocks_run16_partial", "C06_multitrack_eq_single_blocks16_partial", "C06_lcovered_transfer", "C06_cmdsOk_transfer", "C06_linesOk_transfer", "C06_layout_run_from_v2", "C06_layout_invariant_from_v2", "C06_multitrack_eq_single_from_v2", "C06_separator_suffices2", "C06_bare_echo_separator_counterexample", "C06_multitrack_blocks_run2_partial", "C06_multitrack_eq_single_blocks2_partial", "C06_multitrack_blocks_run2_16_partial", "C06_multitrack_eq_single_blocks2_16_partial", "C06_alternatives_clean2", "C06_clean_no_break", "C06_blinesOk_transfer", "C06_multitrack_blocks_run_from_v2"]
+THEOREMS = ["C06_per_track_state", "C06_leading_blanks_skip", "C06_bar_skip", "C06_comment_invariant", "C06_comment_line_invariant", "C06_track_id_map", "C06_track_list_ids", "C06_star_decimal", "C06_multitrack_unfold", "C06_conditional_select_partial", "C06_separator_suffices", "C06_layout_run_partial", "C06_layout_invariant_partial", "C06_multitrack_eq_single_partial", "C06_multitrack_blocks_run_partial", "C06_multitrack_eq_single_blocks_partial", "C06_alternatives_clean", "C06_nested_separator_counterexample", "C06_short_block_counterexample", "C06_layout_run2_partial", "C06_layout_invariant2_partial", "C06_multitrack_eq_single2_partial", "C06_track_count_bound", "C06_header_ids_16bit", "C06_multitrack_blocks_run16_partial", "C06_multitrack_eq_single_blocks16_partial", "C06_lcovered_transfer", "C06_cmdsOk_transfer", "C06_linesOk_transfer", "C06_layout_run_from_v2", "C06_layout_invariant_from_v2", "C06_multitrack_eq_single_from_v2", "C06_separator_suffices2", "C06_bare_echo_separator_counterexample", "C06_multitrack_blocks_run2_partial", "C06_multitrack_eq_single_blocks2_partial", "C06_multitrack_blocks_run2_16_partial", "C06_multitrack_eq_single_blocks2_16_partial", "C06_alternatives_clean2", "C06_clean_no_break", "C06_blinesOk_transfer", "C06_multitrack_blocks_run_from_v2", "C06_lcmdTail_v2_to_v3", "C06_covered_step3", "C06_separator_suffices3"]
 LEVEL = "proof"
 STREAM = "mml.layouts"
 CHUNK = 100
@@ -40,15 +40,18 @@ LEVEL_TEXT = ("Machine-checked theorems over the Lean models of Line_Buffer (inp
               "blocks may now contain V n, V+n, V-n and \\ with a written duration inside and outside the alternatives, and the loop break / outside the blocks (inside an alternative the byte / is the "
               "separator: Clean excludes it, C06_clean_no_break); C06_alternatives_clean2 - Clean is automatic for alternatives made of LCovered2 commands other than the loop break; "
               "C06_blinesOk_transfer (BLinesOk => L2.BLinesOk on LCovered commands) and C06_multitrack_blocks_run_from_v2 = the exact round-2 block statement derived from the round-5 one. "
+              "Round 5, second part (Proofs/LayoutCmd3): the bare echo \\ followed by blanks or the end of the line - L3.LCmdTail widens the echo's look-ahead condition by that case (the blanks get_token skips are "
+              "what L2.lcmdSkip already counts); C06_covered_step3 = the one-command step lemma under L3.LCmdTail (same builder call, same bytes consumed), C06_lcmdTail_v2_to_v3, and C06_separator_suffices3 = "
+              "C06_separator_suffices2 WITHOUT its side condition on the echo. The whole-line theorems are not yet replayed over L3.LCmdTail. "
               "Results are stated modulo the source references (line, column) stamped on the track, which necessarily differ between layouts. NOT proved: the same "
-              "statements for \\= , _{..} / k{..} (D16 interaction), '...', \\ followed by a blank or the end of the line, V with a hex-negative number, and a loop break written INSIDE an alternative of a conditional block (D16, first face); they are kept as "
+              "statements for \\= , _{..} / k{..} (D16 interaction), '...', whole lines with \\ followed by a blank or the end of the line (only the step and separator lemmas), V with a hex-negative number, and a loop break written INSIDE an alternative of a conditional block (D16, first face); they are kept as "
               "C06_full_statement_layout_invariant / C06_full_statement_multitrack_eq_single and decided per generated case by the metamorphic correspondence stream (every "
               "layout of every generated stream parsed by the real code and by the model, the spec demanding equal events per track across layouts and equality with "
               "the meaning of each track's command list).")
 LEVEL_NOTE = ("Trusted: Lean kernel (propext, Classical.choice, Quot.sound), the hand-written models Model/Lexer, Model/TrackBuilder, Model/Mml (agreement with "
               "the C++ established by differential testing), Spec/Layout + Spec/MmlMeaning (my reading of mml_ref.md), the layout generator in checks/c06.py "
               "(what counts as a layout of a stream), glibc strtol in the C locale. Proved in full: track_id_map, star_decimal, per_track_state, the local lexer/parser "
-              "lemmas, the transfer lemmas lcovered_transfer / cmdsOk_transfer / linesOk_transfer, separator_suffices and separator_suffices2 (the latter with the written-duration condition on the echo). Partial: conditional_select and the block theorems, round-2 forms and round-5 forms *2 over LCovered2 (hypothesis = no '/', ';', '}', NUL inside the alternatives and one alternative per track: "
+              "lemmas, the transfer lemmas lcovered_transfer / cmdsOk_transfer / linesOk_transfer, separator_suffices, separator_suffices2 (with the written-duration condition on the echo) and separator_suffices3 / covered_step3 (no side condition, look-ahead condition L3.LCmdTail). Partial: conditional_select and the block theorems, round-2 forms and round-5 forms *2 over LCovered2 (hypothesis = no '/', ';', '}', NUL inside the alternatives and one alternative per track: "
               "D16); layout_run / layout_invariant / multitrack_eq_single (round 4: also derived from their round-3 forms, *_from_v2, through the proved transfer CmdsOk => L2.CmdsOk, LinesOk => L2.LinesOk) and their round-3 forms *2 over LCovered2 (hypothesis CmdsOk / L2.CmdsOk = the covered command subset LCovered - C05's span theorem widened in Proofs/LayoutCmd - with numbers in range; the "
               "layouts themselves are arbitrary). The layout theorems speak about the model's Track values modulo references; that the real parser produces the same "
               "events as the model on layouts is what the correspondence stream checks (the proof examples are corpus cases of the stream). Oracle only: layouts "
@@ -405,6 +408,9 @@ def corpus_streams():
     # the round-5 proof example (exBlocks2 / exBlocks2B): fine volume inside the alternatives, echo behind the block
     yield [Seg([0, 1], [("c", o4), ("b", [[n_("c"), X("volFine", 10)], [n_("d"), X("volFineUp", 2)]]), ("c", Cmd("e", L(4))), ("c", n_("e"))])], [
         ["AB o4 {c V10/d V+2} \\4 e"], ["B o4 d|V+2", "\t\\4 e ; x", "A o4 c V10 \\4 e"]]
+    # the bare echo before a blank / the end of the line (C06_separator_suffices3)
+    yield [Seg([0, 1], [("c", o4), ("c", Cmd("e", ("D", 0))), ("c", n_("c"))])], [
+        ["AB o4 \\ c"], ["B o4\\", " c", "A o4 \\|c"]]
     # hexadecimal numbers need their blank
     yield [Seg([0], [("c", n_("g", ("L", Num(12, True), 0))), ("c", n_("e")), ("c", Cmd("x", "vol", Num(10, True))), ("c", n_("a"))])], [
         ["A g$c e v$a a"], ["A g$c|e|v$a|a"], ["A g$c\te v$a", " a"]]
